@@ -1,10 +1,10 @@
-\* quick-tier universe, unmutated mechanism (the harness passes the same constants;
-\* MC_C19_thorough.cfg is the full space, MC_C19_mut_*.cfg select spec mutants)
+\* quick-tier universe, unmutated mechanism (MC_C19_thorough.cfg: every documented value of
+\* every flag; MC_C19_mut_*.cfg: spec mutants on which TLC must report a law violated)
 CONSTANTS
   Mutant = "none"
   SFmts = {"default", "json", "python-full", "bad"}
   TFmts = {"default", "python", "yaml", "toml", "bad"}
-  Indents = {"default", "0", "4"}
+  Indents = {"default", "0"}
   TxtIds = {"qstr1", "qstr2", "blit", "bboth", "bare", "baresx", "bbad", "bname", "texpo", "texpb", "advb", "advq", "advo"}
 INIT Init
 NEXT Next
